@@ -44,7 +44,10 @@ class Canaries:
         return b
 
     def add(self, kind, b):
-        """Register secret bytes (long secrets are scanned for through three 24-byte windows)."""
+        """Register secret bytes.  Whole-value needles in every form (long secrets: three 24-byte pieces), plus
+        SUB-STRING needles: 8-byte windows every 4 bytes (so any leaked fragment of 11+ bytes is seen) in raw, hex and
+        bytes-repr form - over the whole value up to 64 bytes, and for longer values over the first and last 64
+        bytes plus one window every 256 bytes."""
         b = bytes(b)
         if len(b) < 8:
             return b
@@ -53,6 +56,19 @@ class Canaries:
         for p in pieces:
             for form, needle, low in self.forms(p):
                 self.needles.append((kind, form, needle, low))
+        if len(b) <= 64:
+            starts = range(0, len(b) - 7, 4)
+        else:
+            starts = sorted(set(list(range(0, 57, 4)) + list(range(len(b) - 64, len(b) - 7, 4)) + list(range(0, len(b) - 7, 256))))
+        for i in starts:
+            win = b[i:i + 8]
+            if len(set(win)) < 4:
+                continue                      # constant runs (padding, ASN.1 filler) are not evidence
+            self.needles.append((kind, 'fragment-raw', win.decode('latin-1'), False))
+            self.needles.append((kind, 'fragment-hex', win.hex(), True))
+            r = repr(win)[2:-1]
+            if r != win.decode('latin-1'):
+                self.needles.append((kind, 'fragment-repr', r, False))
         return b
 
     @staticmethod
@@ -89,6 +105,39 @@ class Canaries:
                 seen.add((kind, form))
                 hits.append((kind, form, needle))
         return hits
+
+    def scan_many(self, texts):
+        """texts: list of str -> {index: [(kind, form, needle)]}.  Distinct texts are joined into one blob so that
+        each needle is searched once (records repeat a lot; the needle list is long)."""
+        import bisect
+        first = {}
+        for i, t in enumerate(texts):
+            first.setdefault(t, i)
+        order = sorted(first.values())
+        offs, parts, pos = [], [], 0
+        SEP = '\x00\x01\x00'
+        for i in order:
+            offs.append(pos)
+            parts.append(texts[i])
+            pos += len(texts[i]) + len(SEP)
+        blob = SEP.join(parts)
+        low = blob.lower()
+        hit_texts = set()
+        for kind, form, needle, lc in self.needles:
+            hay = low if lc else blob
+            at = hay.find(needle)
+            while at >= 0:
+                hit_texts.add(order[bisect.bisect_right(offs, at) - 1])
+                at = hay.find(needle, at + 1) if len(hit_texts) < 200 else -1
+        out = {}
+        for i in hit_texts:
+            out[i] = self.scan(texts[i])
+        # the same text under another index
+        for i, t in enumerate(texts):
+            j = first[t]
+            if j in out and i != j:
+                out[i] = out[j]
+        return out
 
 
 # ---------------------------------------------------------------------------------------------- log capture
